@@ -1094,6 +1094,16 @@ var arrayCalls = map[string]callSpec{
 			"Sequential.AsArray": {kind: "let", tmpl: "Mem.alloc mem %r", sets: []string{"mem", "_"}},
 		}
 
+// the list_ methods that hand the call on to the array underneath
+var listDelegCalls = map[string]callSpec{
+	"$.values_.GetValue":  {kind: "except", tmpl: "Seq.getValue values_ %1", sets: []string{"_"}},
+	"$.values_.GetValues": {kind: "except", tmpl: "Seq.getValues values_ %1 %2", sets: []string{"_"}},
+	"$.values_.SetValue":  {kind: "except", tmpl: "Seq.setValue values_ %1 %2", sets: []string{"values_"}},
+	"$.values_.SetValues": {kind: "except", tmpl: "Seq.setValues values_ %1 %2", sets: []string{"values_"}},
+	"$.values_.GetSize":   {kind: "pure", tmpl: "(values_.length : Int)"},
+	"$.values_.IsEmpty":   {kind: "pure", tmpl: "(values_.length == 0)"},
+}
+
 // the class functions of the List
 var listClassCalls = map[string]callSpec{
 	"$.Make":                 {kind: "pure", tmpl: "([] : List α)"},
@@ -1235,6 +1245,24 @@ var loopTargets = []*ltarget{
 		params: "(v : Slice)", args: "v", state: []string{"mem"}, calls: arrayCalls, slices: "Slice", resTy: ""},
 	{file: "LoopsArray.lean", pkg: "collection", recv: "array_", name: "IsEmpty", lean: "arrayIsEmpty",
 		params: "(v : Slice)", args: "v", state: []string{"mem"}, calls: arrayCalls, slices: "Slice", resTy: ""},
+	{file: "LoopsList.lean", pkg: "collection", recv: "list_", name: "GetValue", lean: "listGetValue",
+		params: "", args: "", state: []string{"values_"}, fields: map[string]string{"values_": "values_"},
+		calls: listDelegCalls, slices: "List α"},
+	{file: "LoopsList.lean", pkg: "collection", recv: "list_", name: "GetValues", lean: "listGetValues",
+		params: "", args: "", state: []string{"values_"}, fields: map[string]string{"values_": "values_"},
+		calls: listDelegCalls, slices: "List α"},
+	{file: "LoopsList.lean", pkg: "collection", recv: "list_", name: "SetValue", lean: "listSetValue",
+		params: "", args: "", state: []string{"values_"}, fields: map[string]string{"values_": "values_"},
+		calls: listDelegCalls, slices: "List α"},
+	{file: "LoopsList.lean", pkg: "collection", recv: "list_", name: "SetValues", lean: "listSetValues",
+		params: "", args: "", state: []string{"values_"}, fields: map[string]string{"values_": "values_"},
+		calls: listDelegCalls, slices: "List α"},
+	{file: "LoopsList.lean", pkg: "collection", recv: "list_", name: "GetSize", lean: "listGetSize",
+		params: "", args: "", state: []string{"values_"}, fields: map[string]string{"values_": "values_"},
+		calls: listDelegCalls, slices: "List α"},
+	{file: "LoopsList.lean", pkg: "collection", recv: "list_", name: "IsEmpty", lean: "listIsEmpty",
+		params: "", args: "", state: []string{"values_"}, fields: map[string]string{"values_": "values_"},
+		calls: listDelegCalls, slices: "List α"},
 	{file: "LoopsList.lean", pkg: "collection", recv: "listClass_", name: "MakeFromSequence", lean: "listMakeFromSequence",
 		params: "", args: "", calls: listClassCalls, slices: "List α"},
 	{file: "LoopsList.lean", pkg: "collection", recv: "listClass_", name: "Concatenate", lean: "listConcatenate",
